@@ -411,6 +411,17 @@ class C19(PropBase):
                 model.call_commit(m, a, True, ret=model.last_id + 1)
             return {"k": "call", "m": m, "a": a}
         # server
+        if rng.random() < 0.03:
+            # an operation the library does not implement (abandon of some small id - possibly one that is in progress on
+            # ANOTHER session -, delete, modify, ...): ends this session and must not be felt anywhere else
+            mid = g["next_req"]
+            g["next_req"] += 1
+            msg = policy.byz_raw_op(rng, mid)
+            if msg["tag"] == 16:
+                msg["body"] = "%02x" % rng.choice([1, 1, 2, 2, 3, 4, mid])
+            data = rfc4511.enc_msg(msg)
+            self._model_recv(g, data, fatal=True)
+            return self._recv_ops(g, rng, data)
         if not model.out or x < 0.6:
             mid = g["next_req"]
             g["next_req"] += 1
